@@ -1139,3 +1139,229 @@ Definition h_range_proof1 (t : htree) (l r : list bool) : pset1 hterm :=
 Definition h_range1 (height : nat) (t : htree) (first : list bool) (kvs : list (list bool * hterm))
                     (proof : option (pset1 hterm)) : rres :=
   verify_range1 hterm heqb hzero HP HB HA (HC 0) height (h_root false t) first kvs proof.
+
+(* ====================================================================================== *)
+(* A certificate on the (partially resolved) trie a range verification ends with. It is what makes
+   an accepted range trustworthy, and it is what the proofs of Proofs_F.v are about:
+     - the trie hashes to the root (recomputed from the resolved nodes: nothing in the proof set's
+       keys is believed);
+     - it is height-typed (values only at key depth, edge lengths within the height);
+     - every unresolved (hash) sub-trie lies entirely outside [lo, hi];
+     - its resolved leaves inside [lo, hi] are exactly the claimed entries.
+   [verify_range2_cert] = the code's verifier AND the certificate, with the "more" flag recomputed
+   from the resolved trie. *)
+Section RangeCert.
+Variable F : Type.
+Variable feq : F -> F -> bool.
+Variable fzero : F -> bool.
+Variable ped : F -> F -> F.
+Variable of_path : list bool -> F.
+Variable add_len : F -> nat -> F.
+Variable f0 : F.
+
+Fixpoint bval (k : list bool) : N :=
+  match k with
+  | [] => 0
+  | b :: k' => (if b then 2 ^ N.of_nat (length k') else 0) + bval k'
+  end%N.
+
+Definition oshape (f : rnode F -> bool) (o : option (rnode F)) : bool :=
+  match o with Some n => f n | None => true end.
+Fixpoint rshape (h : nat) (n : rnode F) : bool :=
+  match n with
+  | RVal _ => Nat.eqb h 0
+  | RHash _ => true
+  | REdge p c => negb (Nat.eqb (length p) 0) && (length p <=? h) && rshape (h - length p) c
+  | RBin l r =>
+      match h with
+      | O => false
+      | S h' => (match l with Some a => rshape h' a | None => true end)
+                && (match r with Some b => rshape h' b | None => true end)
+      end
+  end.
+
+(* Some (Some v): the key is resolved to v; Some None: resolved absent; None: runs into a hash *)
+Fixpoint rlookup (n : rnode F) (k : list bool) : option (option F) :=
+  match n with
+  | RVal v => match k with [] => Some (Some v) | _ => Some None end
+  | RHash _ => None
+  | REdge p c => match strip p k with Some k' => rlookup c k' | None => Some None end
+  | RBin l r =>
+      match k with
+      | b :: k' => match (if b then r else l) with Some ch => rlookup ch k' | None => Some None end
+      | [] => Some None
+      end
+  end.
+
+Fixpoint rentries (n : rnode F) (pre : list bool) : list (list bool * F) :=
+  match n with
+  | RVal v => [(pre, v)]
+  | RHash _ => []
+  | REdge p c => rentries c (pre ++ p)
+  | RBin l r => (match l with Some a => rentries a (pre ++ [false]) | None => [] end)
+                ++ (match r with Some b => rentries b (pre ++ [true]) | None => [] end)
+  end.
+
+(* [pre] = numeric value of the path to n, [h] = remaining height *)
+Fixpoint covers (h : nat) (n : rnode F) (pre lo hi : N) : bool :=
+  match n with
+  | RVal _ => true
+  | RHash _ => ((pre * 2 ^ N.of_nat h + (2 ^ N.of_nat h - 1) <? lo) || (hi <? pre * 2 ^ N.of_nat h))%N
+  | REdge p c => covers (h - length p) c (pre * 2 ^ N.of_nat (length p) + bval p)%N lo hi
+  | RBin l r =>
+      match h with
+      | O => true
+      | S h' => (match l with Some a => covers h' a (2 * pre)%N lo hi | None => true end)
+                && (match r with Some b => covers h' b (2 * pre + 1)%N lo hi | None => true end)
+      end
+  end.
+
+(* something (a resolved leaf, or an unresolved sub-trie) lies entirely above hi *)
+Fixpoint follows (h : nat) (n : rnode F) (pre hi : N) : bool :=
+  match n with
+  | RVal _ => (hi <? pre)%N
+  | RHash _ => (hi <? pre * 2 ^ N.of_nat h)%N
+  | REdge p c => follows (h - length p) c (pre * 2 ^ N.of_nat (length p) + bval p)%N hi
+  | RBin l r =>
+      match h with
+      | O => false
+      | S h' => (match l with Some a => follows h' a (2 * pre)%N hi | None => false end)
+                || (match r with Some b => follows h' b (2 * pre + 1)%N hi | None => false end)
+      end
+  end.
+
+Definition in_rangeb (lo hi : N) (k : list bool) : bool := ((lo <=? bval k) && (bval k <=? hi))%N.
+
+Fixpoint kvs_eqb (a b : list (list bool * F)) : bool :=
+  match a, b with
+  | [], [] => true
+  | (k, v) :: a', (k', v') :: b' => bits_eqb k k' && feq v v' && kvs_eqb a' b'
+  | _, _ => false
+  end.
+
+Definition cert (H : nat) (root : F) (t : option (rnode F)) (lo hi : N) (kvs : list (list bool * F)) : bool :=
+  feq (rroot F ped of_path add_len f0 t) root &&
+  match t with
+  | None => match kvs with [] => true | _ => false end
+  | Some n => rshape H n && covers H n 0 lo hi
+              && kvs_eqb (filter (fun kv => in_rangeb lo hi (fst kv)) (rentries n [])) kvs
+  end.
+Definition cert_more (H : nat) (t : option (rnode F)) (hi : N) : bool :=
+  match t with Some n => follows H n 0 hi | None => false end.
+
+(* the trie each branch of VerifyRangeProof ends with, and the interval the claim is about *)
+Definition range2_resolved (H : nat) (root : F) (first : list bool) (kvs : list (list bool * F))
+    (proof : option (pset2 F)) : option (option (rnode F) * N * N) :=
+  let maxk := (2 ^ N.of_nat H - 1)%N in
+  match proof with
+  | None =>
+      match rinsert_all F None kvs with
+      | TOk _ t => Some (t, 0%N, maxk)
+      | _ => None
+      end
+  | Some ps =>
+      let hp0 := heap_of F ps in
+      let ufuel := S (length hp0) in
+      match kvs with
+      | [] =>
+          match proof_to_path F feq hp0 root first true with
+          | PtpOk _ hp1 _ => match unfold F feq f0 ufuel hp1 (HRef root) with
+                             | Some t => Some (t, bval first, maxk) | None => None end
+          | _ => None
+          end
+      | (k0, v0) :: rest =>
+          let last := fst (List.last kvs (k0, v0)) in
+          if (match rest with [] => true | _ => false end) && is_eq (bcmp first last) then
+            match proof_to_path F feq hp0 root k0 false with
+            | PtpOk _ hp1 _ => match unfold F feq f0 ufuel hp1 (HRef root) with
+                               | Some t => Some (t, bval k0, bval k0) | None => None end
+            | _ => None
+            end
+          else
+            match proof_to_path F feq hp0 root first true with
+            | PtpOk _ hp1 _ =>
+                match proof_to_path F feq hp1 root last true with
+                | PtpOk _ hp2 _ =>
+                    match unset_internal F feq (S (length first) * S (length hp2)) hp2 (HRef root) None first last 0 with
+                    | UIOk _ empty hp3 =>
+                        match unfold F feq f0 ufuel hp3 (HRef root) with
+                        | Some t =>
+                            match rinsert_all F (if empty then None else t) kvs with
+                            | TOk _ t' => Some (t', bval first, bval last)
+                            | _ => None
+                            end
+                        | None => None
+                        end
+                    | _ => None
+                    end
+                | _ => None
+                end
+            | _ => None
+            end
+      end
+  end.
+
+Definition verify_range2_cert (H : nat) (root : F) (first : list bool) (kvs : list (list bool * F))
+                              (proof : option (pset2 F)) : rres :=
+  match verify_range2 F feq fzero ped of_path add_len f0 root first kvs proof with
+  | ROk _ =>
+      match range2_resolved H root first kvs proof with
+      | Some (t, lo, hi) => if cert H root t lo hi kvs then ROk (cert_more H t hi) else RErr
+      | None => RErr
+      end
+  | r => r
+  end.
+
+End RangeCert.
+
+Definition h_range2_cert (height : nat) (t : htree) (first : list bool) (kvs : list (list bool * hterm))
+                         (proof : option (pset2 hterm)) : rres :=
+  verify_range2_cert hterm heqb hzero HP HB HA (HC 0) height (h_root false t) first kvs proof.
+
+(* ====================================================================================== *)
+(* The client side of starknet_getStorageProof: what an independent verifier does with a response
+   (global_roots, contracts_proof{nodes, contract_leaves_data}, contracts_storage_proofs,
+   classes_proof) and the block's state commitment. Wire nodes (pnode), remaining-key verifier
+   (verifyW), a zero root = empty trie. [commitf] is the state-commitment formula of the block's
+   protocol version applied to (contracts root, classes root); [pos] the classes trie's hash. *)
+Section Rpc.
+Variable F : Type.
+Variable feq : F -> F -> bool.
+Variable fzero : F -> bool.
+Variable ped : F -> F -> F.
+Variable pos : F -> F -> F.
+Variable commitf : F -> F -> F.
+Variable of_path : list bool -> F.
+Variable add_len : F -> nat -> F.
+Variable f0 : F.
+
+Record leafdata := { ld_class : F; ld_nonce : F; ld_sroot : F }.
+(* contract leaf: H(H(H(class_hash, storage_root), nonce), 0) *)
+Definition cleaf (d : leafdata) : F := ped (ped (ped (ld_class d) (ld_sroot d)) (ld_nonce d)) f0.
+
+Definition verify_root (hf : F -> F -> F) (root : F) (k : list bool) (ps : pset1 F) : result F :=
+  if fzero root then Ok f0 else verifyW_top F feq hf of_path add_len f0 root k ps.
+
+(* value of a storage slot *)
+Definition rpc_verify_slot (state_root croot kroot : F) (cproof : pset1 F) (addr : list bool)
+                           (d : leafdata) (sproof : pset1 F) (key : list bool) : result F :=
+  if negb (feq (commitf croot kroot) state_root) then Err
+  else match verify_root ped croot addr cproof with
+       | Ok leaf => if feq leaf (cleaf d) then verify_root ped (ld_sroot d) key sproof else Err
+       | r => r
+       end.
+
+(* leaf of the classes trie under a class hash (the client compares it with
+   Poseidon("CONTRACT_CLASS_LEAF_V0", compiled_class_hash)) *)
+Definition rpc_verify_class (state_root croot kroot : F) (kproof : pset1 F) (class_hash : list bool) : result F :=
+  if negb (feq (commitf croot kroot) state_root) then Err
+  else verify_root pos kroot class_hash kproof.
+
+End Rpc.
+
+(* concrete instance for the harness: Pedersen as a table, the commitment of the response's two roots
+   as a given felt *)
+Definition z_rpc_slot (tb : ztable) (commit_value state_root croot kroot : Z) (cproof : pset1 Z) (addr : list bool)
+                      (cls nonce sroot : Z) (sproof : pset1 Z) (key : list bool) : result Z :=
+  rpc_verify_slot Z Z.eqb (Z.eqb 0) (zlook tb) (fun _ _ => commit_value) z_of_path z_add_len 0%Z
+    state_root croot kroot cproof addr {| ld_class := cls; ld_nonce := nonce; ld_sroot := sroot |} sproof key.
